@@ -13,6 +13,8 @@ CONSTANTS
   MaxT = 100
 INVARIANT Closure
 INVARIANT Homomorphism
+INVARIANT ZeroRelExact
+INVARIANT InverseGivesId
 INVARIANT DoubleCover
 INVARIANT Orthonormal
 INVARIANT NormKept
